@@ -41,7 +41,16 @@
 (*   bts s / lbts s C := bit 0 of mem[s]; mem[s] := mem[s] | 1.  BTS with a  *)
 (*                  memory operand is a read followed by a write (two steps) *)
 (*                  unless it carries a LOCK prefix (lbts)                   *)
-(*   jc to / jnc to jump on the carry flag                                   *)
+(*   jc to / jnc to jump on the carry flag;  jls / jhi: on (C or Z) / not      *)
+(*   havoc d        d := the result of a local computation (shift, add, ...   *)
+(*                  on registers / stack slots): any small value, any flags  *)
+(*   flags / cmpc d v   comparison whose flags are not (fully) modelled: any  *)
+(*                  outcome (cmpc: Z as cmpi, carry arbitrary)                *)
+(*   jnd to         jump on a flag that is not modelled: either way           *)
+(* Values: 0 = free is the only lock-word value with a fixed meaning; 1..3   *)
+(* stand for themselves, every other constant of the sources (a "held"       *)
+(* marker like 0x4c4f434b) is a class id 10, 11, ...; S1, S2 are local stack *)
+(* slots of the routine (they survive a CALL).                               *)
 (*   dec d / inc d  d := d -/+ 1 (mod CMod), Z := (d = 0)                    *)
 (*   jz to / jnz to / jmp to          nop                                    *)
 (*   call s         call the function s points to (s must be yieldFn # nil)  *)
@@ -63,8 +72,8 @@ CONSTANTS Tasks, MaxOps,
           RelPlain,        \* leg M variant: Release is the plain store  l.state = 0  instead of the extracted body
           Bug              \* design mutants of the interpreter (leg M): "none" | "XchgNotAtomic" | "BufferNotFifo"
 
-PTR == 100   YIELD == 101   UNDEF == 0 - 1   CMod == 4
-NoRegs == [AX |-> UNDEF, BX |-> UNDEF, CX |-> UNDEF, ATT |-> 0, RET |-> 0, Z |-> FALSE, C |-> FALSE]
+PTR == 100   YIELD == 101   YCODE == 102   UNDEF == 0 - 1   CMod == 4
+NoRegs == [AX |-> UNDEF, BX |-> UNDEF, CX |-> UNDEF, DX |-> UNDEF, SI |-> UNDEF, DI |-> UNDEF, S1 |-> UNDEF, S2 |-> UNDEF, ATT |-> 0, RET |-> 0, Z |-> FALSE, C |-> FALSE]
 
 VARIABLES state,     \* the lock word in memory
           nb,        \* the 4 bytes behind it
@@ -163,7 +172,7 @@ Same == UNCHANGED <<state, nb, counter, buf>>
 \* a store to the lock word inside Release gives the lock up
 Gives(t) == hold' = [hold EXCEPT ![t] = IF cur[t] = "rel" THEN FALSE ELSE @]
 Keeps == UNCHANGED hold
-Small(v) == v \in 0..CMod
+Small(v) == v \in 0..60          \* a value a lock word may hold: 0..3 or the class id of a constant
 \* register contents as an instruction of width w sees them
 RegW(v, w) == IF w = 8 THEN v ELSE Lo(v)
 
@@ -179,6 +188,7 @@ Step(t) ==
        [] i.op = "setz"    -> Goto(t, n) /\ reg' = [reg EXCEPT ![t].Z = (i.v = 1)] /\ Good /\ Same /\ Keeps
        [] i.op = "load"    -> /\ Goto(t, n) /\ Same /\ Keeps
                               /\ IF r[i.s] = PTR THEN SetReg(t, i.d, ReadW(t, i.w)) /\ Good
+                                 ELSE IF r[i.s] = YIELD /\ i.w = 8 THEN SetReg(t, i.d, YCODE) /\ Good      \* code pointer of the func value
                                  ELSE SetReg(t, i.d, UNDEF) /\ Bad(t, "load through a register that does not hold the lock address")
        [] i.op = "gload"   -> Goto(t, n) /\ SetReg(t, i.d, Read(t, "state")) /\ Good /\ Same /\ Keeps
        [] i.op \in {"store", "storei"} ->
@@ -213,6 +223,15 @@ Step(t) ==
                               /\ state' = IF state % 2 = 1 THEN state ELSE state + 1
                               /\ Gives(t)
                               /\ IF r[i.s] = PTR THEN Good ELSE Bad(t, "bts through a register that does not hold the lock address")
+       [] i.op = "havoc"   -> /\ Goto(t, n) /\ Good /\ Same /\ Keeps
+                              /\ \E v \in 0..(CMod - 1), z, c \in BOOLEAN : reg' = [reg EXCEPT ![t][i.d] = v, ![t].Z = z, ![t].C = c]
+       [] i.op = "flags"   -> /\ Goto(t, n) /\ Good /\ Same /\ Keeps
+                              /\ \E z, c \in BOOLEAN : reg' = [reg EXCEPT ![t].Z = z, ![t].C = c]
+       [] i.op = "cmpc"    -> /\ Goto(t, n) /\ Good /\ Same /\ Keeps
+                              /\ \E c \in BOOLEAN : reg' = [reg EXCEPT ![t].Z = (RegW(r[i.d], i.w) = i.v), ![t].C = c]
+       [] i.op = "jls"     -> Goto(t, IF r.C \/ r.Z THEN i.to ELSE n) /\ Good /\ Same /\ Keeps /\ UNCHANGED reg
+       [] i.op = "jhi"     -> Goto(t, IF ~(r.C \/ r.Z) THEN i.to ELSE n) /\ Good /\ Same /\ Keeps /\ UNCHANGED reg
+       [] i.op = "jnd"     -> (\E x \in {i.to, n} : Goto(t, x)) /\ Good /\ Same /\ Keeps /\ UNCHANGED reg
        [] i.op = "jc"      -> Goto(t, IF r.C THEN i.to ELSE n) /\ Good /\ Same /\ Keeps /\ UNCHANGED reg
        [] i.op = "jnc"     -> Goto(t, IF ~r.C THEN i.to ELSE n) /\ Good /\ Same /\ Keeps /\ UNCHANGED reg
        [] i.op = "test"    -> /\ Goto(t, n) /\ Same /\ Keeps
@@ -225,7 +244,7 @@ Step(t) ==
                               /\ reg' = [reg EXCEPT ![t].Z = (ReadW(t, i.w) = i.v)]
                               /\ IF r[i.s] = PTR THEN Good ELSE Bad(t, "compare through a register that does not hold the lock address")
        [] i.op \in {"dec", "inc"} ->     \* a register clobbered by CALL holds an arbitrary count
-                              \E v0 \in (IF r[i.d] = UNDEF THEN 0..(CMod - 1) ELSE {r[i.d]}) :
+                              \E v0 \in (IF r[i.d] \in 0..(CMod - 1) \/ r[i.d] \in {PTR, YIELD} THEN {r[i.d]} ELSE 0..(CMod - 1)) :
                               LET v == (v0 + (IF i.op = "dec" THEN CMod - 1 ELSE 1)) % CMod IN
                               /\ Goto(t, n) /\ Same /\ Keeps
                               /\ reg' = [reg EXCEPT ![t][i.d] = v, ![t].Z = (v = 0)]
@@ -234,8 +253,19 @@ Step(t) ==
        [] i.op = "jz"      -> Goto(t, IF r.Z THEN i.to ELSE n) /\ Good /\ Same /\ Keeps /\ UNCHANGED reg
        [] i.op = "jmp"     -> Goto(t, i.to) /\ Good /\ Same /\ Keeps /\ UNCHANGED reg
        [] i.op = "call"    -> /\ Goto(t, n) /\ Same /\ Keeps
-                              /\ reg' = [reg EXCEPT ![t] = [NoRegs EXCEPT !.ATT = r.ATT, !.RET = r.RET]]
+                              /\ reg' = [reg EXCEPT ![t] = [NoRegs EXCEPT !.ATT = r.ATT, !.RET = r.RET, !.S1 = r.S1, !.S2 = r.S2]]
                               /\ IF r[i.s] = YIELD THEN Good ELSE Bad(t, "call through a register that does not hold a non-nil yieldFn")
+       [] i.op = "callr"   -> /\ Goto(t, n) /\ Same /\ Keeps
+                              /\ reg' = [reg EXCEPT ![t] = [NoRegs EXCEPT !.ATT = r.ATT, !.RET = r.RET, !.S1 = r.S1, !.S2 = r.S2]]
+                              /\ IF r[i.s] = YCODE THEN Good ELSE Bad(t, "call of a register that does not hold the code of yieldFn")
+       [] i.op = "cmpxchg" -> \* LOCK CMPXCHGL d, mem[s]: if mem = AX then mem := d, Z := 1 else AX := mem, Z := 0
+                              IF r[i.s] = PTR /\ Small(Lo(r[i.d])) /\ r.AX # UNDEF
+                              THEN /\ Drained(t) /\ Goto(t, n) /\ Good /\ UNCHANGED <<nb, counter, buf>>
+                                   /\ IF state = Lo(r.AX)
+                                      THEN state' = Lo(r[i.d]) /\ reg' = [reg EXCEPT ![t].Z = TRUE] /\ Gives(t)
+                                      ELSE UNCHANGED state /\ reg' = [reg EXCEPT ![t].AX = state, ![t].Z = FALSE] /\ Keeps
+                              ELSE Goto(t, n) /\ UNCHANGED reg /\ Same /\ Keeps
+                                   /\ Bad(t, "cmpxchg operands are not (value register, lock address) with a defined AX")
        [] i.op = "tail"    -> /\ Goto(t, 1) /\ reg' = [reg EXCEPT ![t] = [NoRegs EXCEPT !.ATT = i.v, !.RET = n]] /\ Same /\ Keeps
                               /\ IF cur[t] = "acq" /\ r.RET = 0 THEN Good ELSE Bad(t, "archAcquireSpinlock called outside Acquire")
        [] i.op = "ret" /\ r.RET # 0 ->      \* the assembly routine returns into Acquire
